@@ -157,7 +157,7 @@ class Ctx:
         self.rule = ''
         self.extra = {}
         self.driver = Driver()
-        self.deadline = time.time() + (240 if self.quick else 3000)
+        self.deadline = time.time() + (240 if self.quick else 1500)
 
     def time_left(self):
         return self.deadline - time.time()
